@@ -8,6 +8,7 @@ from gv import rules
 from gv.astutil import compare_parts
 from gv.astutil import const_value
 from gv.astutil import dotted
+from gv.astutil import kwarg
 from gv.astutil import last_attr
 from gv.astutil import names_in
 from gv.astutil import norm_stmt
@@ -366,7 +367,7 @@ def check_newton_parity(ctx: Ctx) -> None:
     rhs = lp[0].args[1]
     s_rhs = -1 if isinstance(rhs, ast.UnaryOp) and isinstance(rhs.op, ast.USub) and dotted(rhs.operand) == "residuals" else (1 if dotted(rhs) == "residuals" else None)
     lhs_def = [s for s in stmts_of(k) if isinstance(s, ast.Assign) and dotted(s.targets[0]) == dotted(lp[0].args[0])]
-    ok_lhs = len(lhs_def) == 1 and isinstance(lhs_def[0].value, ast.Call) and last_attr(lhs_def[0].value) == "assemble_jacobian" and any(kw.arg == "is_residual" and const_value(kw.value) is True for kw in lhs_def[0].value.keywords)
+    ok_lhs = len(lhs_def) == 1 and isinstance(lhs_def[0].value, ast.Call) and last_attr(lhs_def[0].value) == "assemble_jacobian" and const_value(kwarg(lhs_def[0].value, "is_residual")) is True
     ctx.ob("6.5-newton", con_d, ok_lhs, "the Newton matrix must be the residual Jacobian (is_residual=True)", node=(lhs_def or lp)[0])
     # e. update
     e = ctx.index.method(NR, "MDANewtonRaphson", "_execute")
